@@ -36,6 +36,8 @@ size_t slots_for(size_t d) { return 1 + (d > 32 ? (d - 32 + 65) / 66 : 0); }
 struct Run : ContBase {
     Region reg, twinreg;
     qhasharr_t *t = nullptr, *twin = nullptr;
+    qhasharr_t *alt = nullptr;     // long-lived second handle on the same memory; "swap" makes it the one the history continues through
+    int handle_swaps = 0;
     std::map<std::string, std::string> m;          // key bytes as the library sees them -> value
     std::vector<std::string> universe;
     int cap = 0;
@@ -44,7 +46,7 @@ struct Run : ContBase {
     int nt_space = 0, nt_image = 0, relocs = 0, handle_switches = 0, removed_any = 0;
 
     Run(Src &s_, Ctx &c_, bool scr, bool ret) : ContBase(s_, c_, scr, ret, "hasharr") {}
-    ~Run() { if (t) qhasharr_free(t); if (twin) qhasharr_free(twin); if (devnull) fclose(devnull); }
+    ~Run() { if (t) qhasharr_free(t); if (alt) qhasharr_free(alt); if (twin) qhasharr_free(twin); if (devnull) fclose(devnull); }
 
     qhasharr_slot_t *slots(qhasharr_t *h) { return (qhasharr_slot_t *)((char *)h->data + sizeof(qhasharr_data_t)); }
     uint32_t home(const std::string &k) { return qhashmurmur3_32(k.data(), k.size()) % (uint32_t)cap; }
@@ -327,8 +329,16 @@ struct Run : ContBase {
         if (found) { m.erase(target); removed_any++; if (promote) nt_space++; }
     }
     void second_handle() {
-        int kind = (int)s.pick({2, 2, 2});
-        if (kind == 0) {
+        int kind = (int)s.pick({2, 2, 2, 3});
+        if (kind == 3) {
+            // two long-lived handles (two processes mapping the same memory): the history continues through the other one,
+            // the former keeps whatever it holds privately and comes back later - what one handle did, the other must see
+            if (!alt) { alt = qhasharr(reg.mem(), 0); if (!alt) c.fail(IMAGE, "hasharr:attach", "qhasharr(mem,0) on an initialised region returned NULL"); }
+            std::swap(t, alt); handle_swaps++;
+            c.op("continue through the other long-lived handle on the same memory (swap #%d)", handle_swaps);
+            c.tag("two_long_lived_handles");
+            observe(t, IMAGE, "the other long-lived handle on the same memory");
+        } else if (kind == 0) {
             c.op("attach second handle to the same memory and observe");
             qhasharr_t *h2 = qhasharr(reg.mem(), 0);
             if (!h2) c.fail(IMAGE, "hasharr:attach", "qhasharr(mem,0) on an initialised region returned NULL");
@@ -352,6 +362,7 @@ struct Run : ContBase {
             memcpy(r2.mem(), reg.mem(), reg.size);
             memset(reg.mem(), 0xDD, reg.size);                 // the old mapping is gone
             qhasharr_free(t); t = nullptr;
+            if (alt) { qhasharr_free(alt); alt = nullptr; }   // its mapping is gone as well
             std::swap(reg.base, r2.base); std::swap(reg.off, r2.off); std::swap(reg.total, r2.total); std::swap(reg.guarded, r2.guarded);
             t = qhasharr(reg.mem(), 0);
             if (!t) c.fail(IMAGE, "hasharr:attach", "qhasharr(copy,0) returned NULL");
@@ -400,11 +411,13 @@ struct Run : ContBase {
             after_op(what);
         }
         c.op("final walk + get all"); observe(t, FUNC, "final walk");
+        if (alt) { c.op("final observation through the other long-lived handle"); observe(alt, IMAGE, "the other long-lived handle at the end of the history"); }
         if (m7) { c.op("final copy + observe"); Region r2; r2.make(reg.size, 4, true); memcpy(r2.mem(), reg.mem(), reg.size); qhasharr_t *h2 = qhasharr(r2.mem(), 0); if (!h2) c.fail(IMAGE, "hasharr:attach", "attach failed"); struct G { qhasharr_t *h; ~G() { qhasharr_free(h); } } g{h2}; observe(h2, IMAGE, "final copy"); check_image(h2, "final copy"); }
         after_op("final observation");
         note_outlived(); verify_kept(false);
         bool nonempty = !m.empty();
         qhasharr_free(t); t = nullptr;
+        if (alt) { qhasharr_free(alt); alt = nullptr; }
         if (twin) { qhasharr_free(twin); twin = nullptr; }
         c.op("free()");
         verify_kept(true);
